@@ -116,3 +116,36 @@ Print Assumptions scale_within_one_of_share.
 
 Example scale_premises_met : scale_and_discretize [1; 1; 2] 10 [1%nat; 0%nat; 2%nat] = [2; 3; 5].
 Proof. vm_compute. reflexivity. Qed.
+
+(* ---------------------------------------------------------------- measurements that represent a distribution
+   (Measurements.get_measurements_representing_distribution with _check_sample_elimination).  Probabilities are
+   w_k / sum(w); the random sampler is an input (the Counters it returned, in order); [run_ok] is what is assumed
+   of it: each call returns the requested number of outcomes, over keys of positive leftover weight.  The harness
+   records the real sampler's results on every case and Coq checks [run_okb] on them. *)
+Require Import OQ.Stats.Represent OQ.Stats.RepresentProofs.
+
+Theorem represent_returns_requested_number_of_shots : forall ws N draws res,
+  weights_ok ws -> 0 <= N -> run_ok ws N draws -> represent ws N draws = Some res -> zsum res = N.
+Proof. exact represent_count_ok. Qed.
+Print Assumptions represent_returns_requested_number_of_shots.
+
+Theorem represent_shots_on_support : forall ws N draws res,
+  weights_ok ws -> 0 <= N -> run_ok ws N draws -> represent ws N draws = Some res ->
+  forall k, 0 < nth k res 0 -> 0 < nth k ws 0.
+Proof. exact represent_support. Qed.
+Print Assumptions represent_shots_on_support.
+
+(* the removal loop never removes an outcome more often than it is present *)
+Theorem represent_never_removes_absent_shots : forall ws N draws res,
+  weights_ok ws -> 0 <= N -> run_ok ws N draws -> represent ws N draws = Some res -> Forall (fun c => 0 <= c) res.
+Proof. exact represent_nonnegative. Qed.
+Print Assumptions represent_never_removes_absent_shots.
+
+Theorem recorded_draws_checker_sound : forall ws N draws, run_okb ws N draws = true -> run_ok ws N draws.
+Proof. exact run_okb_sound. Qed.
+Print Assumptions recorded_draws_checker_sound.
+
+Example represent_premises_met :
+  represent [1; 1; 1; 1; 1] 3 [[(0%nat, 1); (3%nat, 1)]; [(2%nat, 1)]] = Some [0; 1; 1; 0; 1]
+  /\ run_okb [1; 1; 1; 1; 1] 3 [[(0%nat, 1); (3%nat, 1)]; [(2%nat, 1)]] = true.
+Proof. vm_compute. split; reflexivity. Qed.
